@@ -29,6 +29,7 @@ def _mk(ctx, backlog, d):
         await h.sleep(d)
         return 'p'
     ctx.on(bus, P, 'hP', hP)
+    ctx.on(bus, P, 'hP2', ret='p2')      # a second handler of the in-flight event: must not start after stop() returned
     ctx.on(bus, L, 'hL', ret='l')
     return bus
 
